@@ -201,7 +201,7 @@ func (p *Program) parseContractText(pkg, file, text string) error {
 			c.Line = i + 1
 			c.Loops = map[int]*LoopContract{}
 			if c.IsIface {
-				p.Ifaces[c.Key] = c
+				p.Ifaces[pkg+"|"+c.Key] = c
 			} else {
 				c.Key = pkg + "." + c.Key
 				if _, dup := p.Contracts[c.Key]; dup {
